@@ -102,7 +102,10 @@ func (r *RegistryImpl) CleanupStaleTransactions() {
 		}
 
 		// Check idle time
-		idleTime := now.Sub(txImpl.lastActiveTime)
+		txImpl.mu.Lock()
+		lastActive := txImpl.lastActiveTime
+		txImpl.mu.Unlock()
+		idleTime := now.Sub(lastActive)
 		if idleTime > r.idleTxTTL {
 			staleIDs = append(staleIDs, id)
 			continue
